@@ -24,10 +24,12 @@ type SpecDB struct {
 	hfuncs    map[string]*HFuncDef
 	hpkg      map[string]string // hfunc -> package name of the file declaring it
 	fnTypes   map[string]string // "pkgname.Type" -> apply UF name (functional function types)
+	chains    []*ChainDef
+	chainPkg  map[*ChainDef]string
 }
 
 func newSpecDB() *SpecDB {
-	return &SpecDB{contracts: map[string]*Contract{}, macros: map[string]*MacroDef{}, ufuncs: map[string]*UFuncDef{}, hfuncs: map[string]*HFuncDef{}, hpkg: map[string]string{}, fnTypes: map[string]string{}}
+	return &SpecDB{contracts: map[string]*Contract{}, macros: map[string]*MacroDef{}, ufuncs: map[string]*UFuncDef{}, hfuncs: map[string]*HFuncDef{}, hpkg: map[string]string{}, fnTypes: map[string]string{}, chainPkg: map[*ChainDef]string{}}
 }
 
 func (db *SpecDB) add(sf *SpecFile, prefix string, file string) error {
@@ -65,6 +67,10 @@ func (db *SpecDB) add(sf *SpecFile, prefix string, file string) error {
 	for _, h := range sf.HFuncs {
 		db.hfuncs[h.Name] = h
 		db.hpkg[h.Name] = prefix
+	}
+	for _, c := range sf.Chains {
+		db.chains = append(db.chains, c)
+		db.chainPkg[c] = prefix
 	}
 	for _, ft := range sf.FnTypes {
 		db.fnTypes[prefix+"."+ft] = "apply_" + smtName(prefix+"_"+ft)
@@ -432,6 +438,22 @@ func (env *SpecEnv) localVar(name string) (SVal, bool) {
 	return SVal{}, false
 }
 
+// localVarAddrFirst: address-taken locals (Alloc by comment) first, then the usual lookup.
+func (env *SpecEnv) localVarAddrFirst(name string) (SVal, bool) {
+	fr := env.fr
+	for _, b := range fr.fn.Blocks {
+		for _, ins := range b.Instrs {
+			if a, ok := ins.(*ssa.Alloc); ok && a.Comment == name {
+				if v, ok := fr.regs[a]; ok {
+					et := a.Type().Underlying().(*types.Pointer).Elem()
+					return SVal{T: env.x.loadPtr(env.st, v, et), GT: et}, true
+				}
+			}
+		}
+	}
+	return env.localVar(name)
+}
+
 func isConstLike(v ssa.Value) bool {
 	switch v.(type) {
 	case *ssa.Const, *ssa.Function, *ssa.Global:
@@ -758,6 +780,17 @@ func (env *SpecEnv) evalCall(e *Expr) SVal {
 			env.errf(e, "no method value %s.%s is ever taken in /repo", a.GT, e.Args[1].Name)
 		}
 		return SVal{T: Mk(sortFn, Int(int64(env.x.fnID(f))), env.x.boundEnv(env.st, a.T, a.GT))}
+	case "local":
+		// local(x): the current value of the Go variable x of the function under verification, even if a contract
+		// parameter of the same name (its entry value) exists
+		if env.fr == nil || e.Args[0].Kind != "id" {
+			env.errf(e, "local(x) needs a frame and an identifier")
+		}
+		v, ok := env.localVarAddrFirst(e.Args[0].Name)
+		if !ok {
+			env.errf(e, "local(%s): no such variable", e.Args[0].Name)
+		}
+		return v
 	case "fnenv":
 		// fnenv(f): the environment of a function value (for a context.CancelFunc: the context it cancels)
 		a := env.eval(e.Args[0])
